@@ -380,9 +380,15 @@ func (f *Frame) loadFacts(t types.Type, v []*Term) {
 				case len(x.Op) > 6 && x.Op[:6] == "uf:m0_":
 					n++
 					f.u.addFact(tb.Implies(c, tb.rawUlt(x, tb.BVU(32, freshBase))))
+				case isBaseRead(x):
+					// a cell of a memory havocked by a call or at a loop head: an object that existed then
+					if b, ok := f.u.mc.baseBounds[x.Op[3:]]; ok {
+						n++
+						f.u.addFact(tb.Implies(c, tb.rawUlt(x, b)))
+					}
 				}
 			}
-			if v[i].Op == "ite" {
+			if v[i].Op == "ite" || isBaseRead(v[i]) {
 				walk(tb.True(), v[i])
 			}
 		}
